@@ -44,9 +44,9 @@ typedef struct {
 static const int curve_ids[4] = { 23, 24, 25, 29 };
 /* several names are proper prefixes of others: matching must be exact */
 static const char *alpn_universe[8] = { "h2", "http/1.1", "spdy/3", "x-verif", "h2c", "http/1", "spdy/3.1", "x" };
-static const char *kind_names[] = { "versions", "single", "pair", "flags", "subsets", "alpn-sni", "random", "scripted", "scripted_srv" };
-enum { K_VERSIONS, K_SINGLE, K_PAIR, K_FLAGS, K_SUBSETS, K_ALPN, K_RANDOM, K_SCRIPTED, K_SCRIPTED_SRV };
-#define NSLOTS 9   /* case idx -> slot idx % NSLOTS -> kind; q = idx / NSLOTS enumerates within a kind */
+static const char *kind_names[] = { "versions", "single", "pair", "flags", "subsets", "alpn-sni", "random", "scripted", "scripted_srv", "resume" };
+enum { K_VERSIONS, K_SINGLE, K_PAIR, K_FLAGS, K_SUBSETS, K_ALPN, K_RANDOM, K_SCRIPTED, K_SCRIPTED_SRV, K_RESUME };
+#define NSLOTS 10   /* case idx -> slot idx % NSLOTS -> kind; q = idx / NSLOTS enumerates within a kind */
 
 /* name-check bypass: the fixture certificates carry localhost / www.example.com only */
 static void
@@ -73,8 +73,13 @@ pre_reset(void *epv, void *arg)
 	const br_ec_impl *dflt = br_ssl_engine_get_ec(ep->eng);
 	int id;
 
-	/* a context in its second life already runs on the restricted copy made for its first one */
-	if (dflt == &sd->ec) dflt = br_ec_get_default();
+	/* a context in its second life already runs on the restricted copy made for its first one: the default
+	   implementation is the one the first fresh engine of this process was given */
+	{
+		static const br_ec_impl *real_default;
+		if (real_default == NULL) real_default = dflt;
+		dflt = real_default;
+	}
 
 	for (id = 1; id <= 6; id ++) {
 		if (!((sd->hashes >> id) & 1)) br_ssl_engine_set_hash(ep->eng, id, NULL);
@@ -298,7 +303,8 @@ gen_case(vf_rng *r, long long seed, long idx, int *kind_out, side *C, side *S)
 	case 5: kind = K_SUBSETS; break;
 	case 6: kind = (q & 1) ? K_ALPN : K_RANDOM; break;
 	case 7: kind = K_SCRIPTED; break;
-	default: kind = K_SCRIPTED_SRV; break;
+	case 8: kind = K_SCRIPTED_SRV; break;
+	default: kind = K_RESUME; break;
 	}
 	*kind_out = kind;
 
@@ -363,7 +369,7 @@ gen_case(vf_rng *r, long long seed, long idx, int *kind_out, side *C, side *S)
 	}
 
 	/* ALPN */
-	if (kind == K_ALPN || kind == K_FLAGS || vf_below(r, 100) < 35) {
+	if (kind == K_ALPN || kind == K_FLAGS || kind == K_RESUME || vf_below(r, 100) < 35) {
 		random_alpn(r, C, vf_below(r, 4));
 		random_alpn(r, S, vf_below(r, 4));
 		if (kind == K_ALPN) {
@@ -729,6 +735,105 @@ run_pair(long long seed, long idx, int kind, side *C, side *S, vf_rng *r)
 	} else {
 		vf_distinct("outcome", "fail/%d/%d", br_ssl_engine_last_error(p.c.eng), br_ssl_engine_last_error(p.s.eng));
 	}
+	rm_free(&pm.m.rm);
+	tp_pair_free(&p);
+}
+
+/* ------------------------------------------------------------------ */
+/*
+ * Session resumption attempts: a first connection establishes a session (server with a cache), then the same
+ * contexts are used again, the client offering that session, with a configuration that may have changed in between
+ * on either side: ALPN names, server name, version range of the client, the remembered suite removed from its list,
+ * the ALPN strictness flag of the server. Whatever the history, the second handshake either resumes the session -
+ * only if its version and suite are still acceptable to both - or negotiates afresh; the protocol name and the
+ * server name are those of the second connection; nobody crashes.
+ */
+static void
+run_resume(long long seed, long idx, side *C, side *S, vf_rng *r)
+{
+	static br_ssl_session_cache_lru lru;
+	static unsigned char lru_store[3000];
+	static side C2, S2;
+	tp_pair p;
+	tm_pairmon pm;
+	tp_cfg cc, sc;
+	int hs1, hs2 = 0, rc, rs, mod, abbreviated = 0, i;
+	unsigned v1 = 0, s1 = 0;
+	ep_obs oc, os;
+
+	S->creq = 0; C->cert = 0;
+	side_to_cfg(C, 0, &cc, r);
+	side_to_cfg(S, 1, &sc, r);
+	br_ssl_session_cache_lru_init(&lru, lru_store, sizeof lru_store);
+	sc.cache = &lru.vtable;
+	tp_pair_init(&p, (uint64_t)seed, (uint64_t)idx, (int)vf_below(r, 5));
+	p.c.tx_key = vf_u64(r); p.s.tx_key = vf_u64(r);
+	memset(&W, 0, sizeof W);
+	hs1 = tp_ep_start(&p.c, &cc) && tp_ep_start(&p.s, &sc) && tp_handshake(&p, 2000000);
+	if (hs1) {
+		br_ssl_session_parameters sp;
+		br_ssl_engine_get_session_parameters(p.s.eng, &sp);
+		v1 = sp.version; s1 = sp.cipher_suite;
+		if (vf_below(r, 3)) tp_run_close(&p, (int)vf_below(r, 3), 100000);
+	}
+	C2 = *C; S2 = *S;
+	mod = (int)vf_below(r, 8);
+	switch (mod) {
+	case 1: random_alpn(r, &C2, 1 + vf_below(r, 3)); break;
+	case 2: random_alpn(r, &S2, 1 + vf_below(r, 3)); break;
+	case 3: if (C2.vmax > C2.vmin) C2.vmax --; break;
+	case 4: random_sni(r, &C2); break;
+	case 5:   /* the remembered suite leaves the client's list */
+		if (hs1 && C2.nsuites > 1) {
+			size_t k = 0, j;
+			for (j = 0; j < C2.nsuites; j ++) if (C2.suites[j] != s1) C2.suites[k ++] = C2.suites[j];
+			if (k > 0) C2.nsuites = k;
+		}
+		break;
+	case 6: C2.nalpn = 0; break;
+	default: break;
+	}
+	if (vf_below(r, 3) == 0) S2.flags ^= BR_OPT_FAIL_ON_ALPN_MISMATCH;
+	side_to_cfg(&C2, 0, &cc, r);
+	side_to_cfg(&S2, 1, &sc, r);
+	sc.cache = &lru.vtable;
+	cc.reuse_ctx = sc.reuse_ctx = 1; cc.resume = 1;
+	/* (protocol names set on a context stay until replaced: an emptied list is set explicitly) */
+	if (C2.nalpn == 0 && p.c.eng) br_ssl_engine_set_protocol_names(p.c.eng, NULL, 0);
+	if (S2.nalpn == 0 && p.s.eng) br_ssl_engine_set_protocol_names(p.s.eng, NULL, 0);
+	p.c2s.rd = p.c2s.wr = 0; p.s2c.rd = p.s2c.wr = 0;
+	p.c.tx_key = vf_u64(r); p.s.tx_key = vf_u64(r);
+	tm_pair_attach(&pm, &p);
+	pm.m.rm.on_hs = on_hs;
+	pm.m.rec_hook = rec_hook;
+	memset(&W, 0, sizeof W);
+	rc = tp_ep_start(&p.c, &cc);
+	rs = tp_ep_start(&p.s, &sc);
+	p.c.tx_key = pm.m.key[0]; p.c.rx_key = pm.m.key[1]; p.s.tx_key = pm.m.key[1]; p.s.rx_key = pm.m.key[0];
+	if (rc && rs) {
+		hs2 = tp_handshake(&p, 2000000);
+		rm_drain(&pm.m.rm, 0); rm_drain(&pm.m.rm, 1);
+	}
+	abbreviated = 1;
+	for (i = 0; i < pm.m.rm.n_hs[1]; i ++) if (pm.m.rm.hs_types[1][i] == 11) abbreviated = 0;
+	if (pm.m.rm.n_sh == 0) abbreviated = 0;
+	if (hs2 && vf_below(r, 4) == 0 && !tp_run_data(&p, 1 + vf_below(r, 200), 1 + vf_below(r, 200), TP_W_WHOLE, 200000))
+		TP_VIOL("stream:incomplete", "application data did not flow over the second connection");
+	observe(&p.c, &oc); observe(&p.s, &os);
+	fprintf(LOG, "{\"i\":%ld,\"seed\":%lld,\"kind\":\"resume\",\"reset\":[%d,%d],\"first\":[%d,%u,%u],\"mod\":%d,\"abbreviated\":%d,",
+		idx, seed, rc, rs, hs1, v1, s1, mod, abbreviated);
+	js_side(LOG, "C", &C2, 0); fputc(',', LOG);
+	js_side(LOG, "S", &S2, 1); fputc(',', LOG);
+	js_wire(LOG, &pm.m.rm);
+	fputc(',', LOG); js_endpoint(LOG, "oc", &oc, -1);
+	fputc(',', LOG); js_endpoint(LOG, "os", &os, -1);
+	fputs("}\n", LOG);
+	tm_verdict(&pm.m, 0, 0, 0);
+	vf_stat("resume_cases", 1);
+	if (hs1) vf_stat("resume_first_connection_completed", 1);
+	if (hs2) vf_stat(abbreviated ? "resume_second_abbreviated" : "resume_second_full", 1);
+	else vf_stat("resume_second_failed", 1);
+	vf_distinct("config", "resume/mod%d/abbr%d/hs%d%d/f%x", mod, abbreviated, hs1, hs2, (unsigned)S2.flags);
 	rm_free(&pm.m.rm);
 	tp_pair_free(&p);
 }
@@ -1543,6 +1648,7 @@ main(int argc, char **argv)
 		vf_stat("cases", 1);
 		if (kind == K_SCRIPTED) run_scripted(seed, idx, &S, &r);
 		else if (kind == K_SCRIPTED_SRV) run_scripted_server(seed, idx, &C, &r);
+		else if (kind == K_RESUME) run_resume(seed, idx, &C, &S, &r);
 		else run_pair(seed, idx, kind, &C, &S, &r);
 		if (only >= 0) break;
 	}
